@@ -452,8 +452,8 @@ def gen_shape_for(rng, ax, n):
   """a shape whose axis `ax` (int in [-r, r)) has size n; any small shape for None / 'carry'"""
   if isinstance(ax, int):
     need = ax + 1 if ax >= 0 else -ax
-    r = rng.randint(need, max(need, 3))
-    shape = [rng.randint(1, 3) for _ in range(r)]
+    r = rng.choice([need, max(need, 2), max(need, 3), max(need, 3)])
+    shape = [rng.choice([1, 2, 2, 3]) for _ in range(r)]  # distinct-looking dims: a wrong permutation shows
     shape[ax] = n
     return tuple(shape)
   return tuple(rng.randint(1, 3) for _ in range(rng.randint(0, 2)))
@@ -544,11 +544,11 @@ def gen_vmap_case(rng, kind):
         args.append({'arr': None})
     if not all(_acyclic(a) for a in args if 'arr' not in a):
       continue
-    pool = [0, 0, 1, -1, -2, None, None]
+    pool = [0, 0, 1, -1, -2, 2, None, None]
     prefixes = []
     for a in args:
       if 'arr' in a:
-        prefixes.append(rng.choice([0, 0, 1, -1, None]))
+        prefixes.append(rng.choice([0, 0, 1, -1, 2, None]))
       elif rng.random() < 0.65:
         prefixes.append(gen_state_axes(rng, pool))
       else:
@@ -600,7 +600,7 @@ def gen_vmap_case(rng, kind):
       if o[0] == 'node':
         ranks = [rank_of(x[2]) for x in o[1]]
         lo = min(ranks) + 1
-        pool_o = [k for k in (0, 1, -1, -2) if -lo <= k < lo]
+        pool_o = [k for k in (0, 1, -1, -2, 2) if -lo <= k < lo]
         if all(not is_t(x[2]) for x in o[1]) and rng.random() < 0.3:
           pool_o = pool_o + [None]
         if rng.random() < 0.6:
@@ -611,7 +611,7 @@ def gen_vmap_case(rng, kind):
           outp.append(rng.choice(pool_o))
       else:
         rk = out_rank(o, rank_of) + 1
-        pool_o = [k for k in (0, 0, 1, -1, -2, 2) if -rk <= k < rk]
+        pool_o = [k for k in (0, 0, 1, -1, -2, 2, 2) if -rk <= k < rk]
         untainted = not is_t(o[1])
         outp.append(None if untainted and rng.random() < 0.4 else rng.choice(pool_o))
     if len(set(map(repr, outp))) == 1 and rng.random() < 0.5 and (not isinstance(outp[0], dict) or len(outp) == 1):
@@ -957,7 +957,7 @@ def gen_scan_case(rng, kind):
     share_p = 0.25 if kind in ('ok', 'inconsistent') else 0.1
     cpos = rng.randrange(nargs) if form == 'at' else (0 if form == 'all' else None)
     args, prefixes = [], []
-    pool = [0, 0, 1, -1, None, 'carry']
+    pool = [0, 0, 1, -1, 2, -2, None, 'carry']
     for i in range(nargs):
       is_node = rng.random() < 0.7
       if kind == 'carry_refs' and i == cpos:
@@ -968,11 +968,11 @@ def gen_scan_case(rng, kind):
       if i == cpos:
         prefixes.append('carry')
       elif not is_node:
-        prefixes.append(rng.choice([0, 0, 1, -1, None]))
+        prefixes.append(rng.choice([0, 0, 1, -1, 2, None]))
       elif rng.random() < 0.7:
         prefixes.append(gen_state_axes(rng, pool))
       else:
-        prefixes.append(rng.choice([0, 1, -1, None]))
+        prefixes.append(rng.choice([0, 1, -1, 2, None]))
     if not all(_acyclic(a) for a in args if 'arr' not in a):
       continue
     vars_ = {vid: {'type': g.types[vid]} for vid in g.vids}
@@ -1020,11 +1020,11 @@ def gen_scan_case(rng, kind):
     for o in prog['outs']:
       if o[0] == 'node':
         lo = min(rank_of(x[2]) for x in o[1]) + 1
-        pool_o = [k for k in (0, 1, -1, -2) if -lo <= k < lo]
+        pool_o = [k for k in (0, 1, -1, -2, 2) if -lo <= k < lo]
         outp.append(gen_state_axes(rng, pool_o, total_p=1.0) if rng.random() < 0.6 else rng.choice(pool_o))
       else:
         rk = out_rank(o, rank_of) + 1
-        outp.append(rng.choice([k for k in (0, 0, 1, -1, -2, 2) if -rk <= k < rk]))
+        outp.append(rng.choice([k for k in (0, 0, 1, -1, -2, 2, 2) if -rk <= k < rk]))
     outs = list(prog['outs'])
     single = False
     if cpos is not None:
